@@ -1323,3 +1323,667 @@ Proof.
   split; [left; reflexivity|]. split; [simpl; auto|].
   simpl. intros [H|[H|[]]]; discriminate.
 Qed.
+
+(* ######################################################################### the repaired variant (_fx) *)
+(* ========================================================================= the scan over any test *)
+Section ScanG.
+  Variable cand : surface -> surface -> res bool.
+  Variable all : list surface.
+  Hypothesis cand_neq : forall a b, cand a b = Ok true -> s_num b <> s_num a.
+
+  Definition inv_basic_g (del : list Z) (m : list (Z * Z)) : Prop :=
+    (forall n, In n del <-> lookup n m <> None) /\
+    (forall d s, lookup d m = Some s ->
+       exists sd ss, In sd all /\ In ss all /\ s_num sd = d /\ s_num ss = s /\ cand ss sd = Ok true).
+
+  Lemma inv_basic_g_step : forall s ms del m,
+    In s all -> filter_res (cand s) all = Ok ms -> inv_basic_g del m ->
+    inv_basic_g (fst (record_matches (map s_num ms) (s_num s) del m))
+                (snd (record_matches (map s_num ms) (s_num s) del m)).
+  Proof.
+    intros s ms del m Hs Hf [Hk Hj]. split.
+    - intro n. rewrite record_matches_del, record_matches_lookup.
+      destruct (memZ n (map s_num ms)) eqn:E.
+      + apply memZ_In in E. split; [intros _; discriminate | intros _; right; exact E].
+      + apply memZ_false in E. rewrite Hk. tauto.
+    - intros d v. rewrite record_matches_lookup.
+      destruct (memZ d (map s_num ms)) eqn:E.
+      + intro H. inversion H; subst v; clear H. apply memZ_In in E. apply in_map_iff in E.
+        destruct E as [x [Hx Hin]]. apply (filter_res_spec _ _ _ Hf) in Hin. destruct Hin as [Hxa Hc].
+        exists x, s. auto.
+      + apply Hj.
+  Qed.
+
+  Lemma scan_loop_g_inv_basic : forall todo del m del' m',
+    incl todo all -> inv_basic_g del m -> scan_loop_g cand all todo del m = Ok (del', m') -> inv_basic_g del' m'.
+  Proof.
+    induction todo as [|s r IH]; intros del m del' m' Hincl Hinv H; simpl in H.
+    - inversion H; subst. exact Hinv.
+    - assert (Hr : incl r all) by (intros x Hx; apply Hincl; right; exact Hx).
+      destruct (memZ (s_num s) del).
+      + eapply IH; eauto.
+      + destruct (filter_res (cand s) all) as [ms|] eqn:Hf; [|discriminate].
+        destruct (record_matches (map s_num ms) (s_num s) del m) as [d1 m1] eqn:Hrm.
+        eapply IH; [exact Hr | | exact H].
+        pose proof (inv_basic_g_step s ms del m (Hincl s (or_introl eq_refl)) Hf Hinv) as Hstep.
+        rewrite Hrm in Hstep. exact Hstep.
+  Qed.
+
+  Definition inv_chain_g (del : list Z) (m : list (Z * Z)) : Prop :=
+    (forall d s, lookup d m = Some s -> ~ In s del) /\
+    (forall d ss, In ss all -> lookup d m = Some (s_num ss) ->
+       forall x, In x all -> cand ss x = Ok true -> In (s_num x) del).
+
+  Hypothesis Hnodup : NoDup (map s_num all).
+  Hypothesis Hsym : forall a b, In a all -> In b all -> cand a b = Ok true -> cand b a = Ok true.
+
+  Lemma inv_chain_g_step : forall s ms del m,
+    In s all -> ~ In (s_num s) del -> filter_res (cand s) all = Ok ms -> inv_chain_g del m ->
+    inv_chain_g (fst (record_matches (map s_num ms) (s_num s) del m))
+                (snd (record_matches (map s_num ms) (s_num s) del m)).
+  Proof.
+    intros s ms del m Hs Hnd Hf [Hv Hw].
+    assert (Hms : forall x, In x ms <-> In x all /\ cand s x = Ok true)
+      by (apply filter_res_spec; exact Hf).
+    split.
+    - intros d v. rewrite record_matches_lookup, record_matches_del.
+      destruct (memZ d (map s_num ms)) eqn:E.
+      + intro H. inversion H; subst v; clear H. intros [H|H]; [exact (Hnd H)|].
+        apply in_map_iff in H. destruct H as [x [Hx Hin]]. apply Hms in Hin. destruct Hin as [_ Hc].
+        apply cand_neq in Hc. congruence.
+      + intros Hl [H|H]; [exact (Hv _ _ Hl H)|].
+        apply in_map_iff in H. destruct H as [x [Hx Hin]]. apply Hms in Hin. destruct Hin as [Hxa Hc].
+        apply Hnd. apply (Hw d x Hxa); [rewrite Hx; exact Hl | exact Hs |].
+        apply Hsym; assumption.
+    - intros d ss Hss. rewrite record_matches_lookup.
+      destruct (memZ d (map s_num ms)) eqn:E.
+      + intro H. inversion H as [Hn]; clear H.
+        assert (ss = s) by (apply (same_num_same_surface all Hnodup); auto). subst ss.
+        intros x Hx Hc. apply record_matches_del. right. apply in_map. apply Hms. auto.
+      + intros Hl x Hx Hc. apply record_matches_del. left. exact (Hw d ss Hss Hl x Hx Hc).
+  Qed.
+
+  Lemma scan_loop_g_inv_chain : forall todo del m del' m',
+    incl todo all -> inv_chain_g del m -> scan_loop_g cand all todo del m = Ok (del', m') -> inv_chain_g del' m'.
+  Proof.
+    induction todo as [|s r IH]; intros del m del' m' Hincl Hinv H; simpl in H.
+    - inversion H; subst. exact Hinv.
+    - assert (Hr : incl r all) by (intros x Hx; apply Hincl; right; exact Hx).
+      destruct (memZ (s_num s) del) eqn:Hmem.
+      + eapply IH; eauto.
+      + destruct (filter_res (cand s) all) as [ms|] eqn:Hf; [|discriminate].
+        destruct (record_matches (map s_num ms) (s_num s) del m) as [d1 m1] eqn:Hrm.
+        eapply IH; [exact Hr | | exact H].
+        apply memZ_false in Hmem.
+        pose proof (inv_chain_g_step s ms del m (Hincl s (or_introl eq_refl)) Hmem Hf Hinv) as Hstep.
+        rewrite Hrm in Hstep. exact Hstep.
+  Qed.
+End ScanG.
+
+(* ========================================================================= the repaired test *)
+Definition disp3 (all : list surface) : Prop :=
+  forall s t, In s all -> s_tr s = Some t -> List.length (t_disp t) = 3%nat.
+
+Lemma candidate_fx_same_kind : forall tol a b, candidate_fx tol a b = Ok true -> same_kind a b = true.
+Proof.
+  intros tol a b. unfold candidate_fx.
+  destruct (periodic_now a); [discriminate|].
+  destruct (same_kind a b); [reflexivity | simpl; discriminate].
+Qed.
+
+Lemma candidate_fx_num_neq : forall tol a b, candidate_fx tol a b = Ok true -> s_num b <> s_num a.
+Proof.
+  intros tol a b H. apply candidate_fx_same_kind in H. unfold same_kind in H.
+  apply andb_true_iff in H. destruct H as [H _]. apply negb_true_iff in H. apply Z.eqb_neq in H. exact H.
+Qed.
+
+Lemma candidate_fx_type_eq : forall tol a b, candidate_fx tol a b = Ok true -> s_type b = s_type a.
+Proof.
+  intros tol a b H. apply candidate_fx_same_kind in H. unfold same_kind in H.
+  apply andb_true_iff in H. destruct H as [_ H]. apply String.eqb_eq in H. exact H.
+Qed.
+
+Lemma may_merge_sym : forall a b, may_merge a b = may_merge b a.
+Proof.
+  intros a b. unfold may_merge.
+  destruct (periodic_now a), (periodic_now b), (s_refl a), (s_refl b), (s_white a), (s_white b); reflexivity.
+Qed.
+
+Lemma may_merge_spec : forall a b, may_merge a b = true ->
+  s_perptr a = 0 /\ s_perptr b = 0 /\ s_refl a = s_refl b /\ s_white a = s_white b.
+Proof.
+  intros a b H. unfold may_merge, periodic_now in H.
+  repeat (apply andb_true_iff in H; destruct H as [H ?]).
+  rewrite negb_involutive in *. 
+  repeat split; try (apply Z.eqb_eq; assumption); apply Bool.eqb_prop; assumption.
+Qed.
+
+Lemma tr_equiv_fx_sym : forall tol t t',
+  List.length (t_disp t) = List.length (t_disp t') ->
+  tr_equivalent_fx tol t t' = Ok true -> tr_equivalent_fx tol t' t = Ok true.
+Proof.
+  intros tol t t' Hd H. unfold tr_equivalent_fx in *.
+  destruct (Bool.eqb (t_deg t) (t_deg t')) eqn:Ed; simpl in H; [|discriminate].
+  destruct (Bool.eqb (t_m2a t) (t_m2a t')) eqn:Em; simpl in H; [|discriminate].
+  apply Bool.eqb_prop in Ed. apply Bool.eqb_prop in Em. rewrite <- Ed, <- Em, !Bool.eqb_reflx. simpl.
+  destruct (vec_loop tol (t_disp t) (t_disp t')) as [[|]|] eqn:Ev; try discriminate.
+  rewrite (vec_loop_sym _ _ _ Ev Hd).
+  destruct (Nat.eqb (List.length (t_rot t)) (List.length (t_rot t'))) eqn:El; simpl in H; [|discriminate].
+  apply Nat.eqb_eq in El. rewrite <- El, Nat.eqb_refl. simpl.
+  apply vec_loop_sym; assumption.
+Qed.
+
+Lemma tr_equiv_fx_same : forall tol t t',
+  List.length (t_disp t) = List.length (t_disp t') -> (0 < tol)%Q ->
+  tr_equivalent_fx tol t t' = Ok true -> trdata_same tol (Some t) (Some t').
+Proof.
+  intros tol t t' Hd Hpos H. unfold tr_equivalent_fx in H. simpl.
+  destruct (Bool.eqb (t_deg t) (t_deg t')) eqn:Ed; simpl in H; [|discriminate].
+  destruct (Bool.eqb (t_m2a t) (t_m2a t')) eqn:Em; simpl in H; [|discriminate].
+  apply Bool.eqb_prop in Ed. apply Bool.eqb_prop in Em.
+  destruct (vec_loop tol (t_disp t) (t_disp t')) as [[|]|] eqn:Ev; try discriminate.
+  destruct (Nat.eqb (List.length (t_rot t)) (List.length (t_rot t'))) eqn:El; simpl in H; [|discriminate].
+  apply Nat.eqb_eq in El.
+  split; [exact Ed|]. split; [exact Em|]. split; [apply vec_loop_within; assumption|].
+  unfold rot_full. destruct (t_rot t) as [|r0 r] eqn:Er.
+  - destruct (t_rot t') as [|r0' r'] eqn:Er'; [|simpl in El; discriminate].
+    rewrite Ed. apply within_refl. exact Hpos.
+  - destruct (t_rot t') as [|r0' r'] eqn:Er'; [simpl in El; discriminate|].
+    apply vec_loop_within; assumption.
+Qed.
+
+Lemma tr_equiv_fx_total : forall tol t t',
+  List.length (t_disp t) = List.length (t_disp t') -> exists b, tr_equivalent_fx tol t t' = Ok b.
+Proof.
+  intros tol t t' Hd. unfold tr_equivalent_fx.
+  destruct (negb (Bool.eqb (t_deg t) (t_deg t'))); [eexists; reflexivity|].
+  destruct (negb (Bool.eqb (t_m2a t) (t_m2a t'))); [eexists; reflexivity|].
+  destruct (vec_loop_total tol _ _ Hd) as [b Hb]. rewrite Hb. destruct b; [|eexists; reflexivity].
+  destruct (Nat.eqb (List.length (t_rot t)) (List.length (t_rot t'))) eqn:El; simpl; [|eexists; reflexivity].
+  apply vec_loop_total. apply Nat.eqb_eq. exact El.
+Qed.
+
+Section Pair.
+  Variable tol : Q.
+  Variables a b : surface.
+  Hypothesis Hsh : forall t t', s_tr a = Some t -> s_tr b = Some t' -> List.length (t_disp t) = List.length (t_disp t').
+
+  Lemma tr_check_fx_sym : tr_check_fx tol a b = Ok true -> tr_check_fx tol b a = Ok true.
+  Proof.
+    intro H. unfold tr_check_fx in *.
+    destruct (s_tr a) as [t|], (s_tr b) as [t'|]; try discriminate; [|reflexivity].
+    apply tr_equiv_fx_sym; auto.
+  Qed.
+
+  Lemma tr_check_fx_same : (0 < tol)%Q -> tr_check_fx tol a b = Ok true -> trdata_same tol (s_tr a) (s_tr b).
+  Proof.
+    intros Hpos H. unfold tr_check_fx in H.
+    destruct (s_tr a) as [t|], (s_tr b) as [t'|]; try discriminate.
+    - apply tr_equiv_fx_same; auto.
+    - exact I.
+  Qed.
+
+  Lemma tr_check_fx_total : exists r, tr_check_fx tol a b = Ok r.
+  Proof.
+    unfold tr_check_fx. destruct (s_tr a) as [t|], (s_tr b) as [t'|]; try (eexists; reflexivity).
+    apply tr_equiv_fx_total. apply Hsh; reflexivity.
+  Qed.
+
+  Lemma candidate_fx_total : exists r, candidate_fx tol a b = Ok r.
+  Proof.
+    unfold candidate_fx. destruct tr_check_fx_total as [r Hr].
+    destruct (periodic_now a); [eexists; reflexivity|].
+    destruct (negb (same_kind a b)); [eexists; reflexivity|].
+    destruct (s_class a); try (eexists; reflexivity);
+      (destruct (negb (may_merge a b)); [eexists; reflexivity|]).
+    - destruct (near tol (cnst a 0) (cnst b 0)); [rewrite Hr|]; eexists; reflexivity.
+    - destruct (near tol (cnst a 0) (cnst b 0)); [rewrite Hr|]; eexists; reflexivity.
+    - destruct (near tol (cnst a 2) (cnst b 2) && near tol (cnst a 0) (cnst b 0) && near tol (cnst a 1) (cnst b 1));
+        [rewrite Hr|]; eexists; reflexivity.
+  Qed.
+
+  Lemma candidate_fx_true_dup : class_ok a -> class_ok b -> candidate_fx tol a b = Ok true -> true_dup tol a b.
+  Proof.
+    intros [Hca Haa] [Hcb Hab] H.
+    pose proof (candidate_fx_type_eq _ _ _ H) as Hty. symmetry in Hty.
+    assert (Hcl : s_class b = s_class a) by (rewrite Hca, Hcb, Hty; reflexivity).
+    unfold candidate_fx in H.
+    destruct (periodic_now a) eqn:Epa; [discriminate|].
+    destruct (same_kind a b); simpl in H; [|discriminate].
+    rewrite Hcl in Hab.
+    destruct (s_class a) eqn:Ecl; simpl in *; try discriminate;
+      (destruct (may_merge a b) eqn:Emm; simpl in H; [|discriminate]);
+      destruct (may_merge_spec _ _ Emm) as [Hp1 [Hp2 [Hrf Hwh]]].
+    - destruct (near tol (cnst a 0) (cnst b 0)) eqn:En; [|discriminate].
+      pose proof (near_tol_pos _ _ _ En) as Hpos.
+      destruct (length1 _ Haa) as [x Hx]. destruct (length1 _ Hab) as [y Hy].
+      rewrite (cnst_single _ _ Hx), (cnst_single _ _ Hy) in En.
+      repeat split; auto.
+      + apply tr_check_fx_same; auto.
+      + rewrite Hx, Hy. constructor; [apply near_lt; exact En | constructor].
+    - destruct (near tol (cnst a 0) (cnst b 0)) eqn:En; [|discriminate].
+      pose proof (near_tol_pos _ _ _ En) as Hpos.
+      destruct (length1 _ Haa) as [x Hx]. destruct (length1 _ Hab) as [y Hy].
+      rewrite (cnst_single _ _ Hx), (cnst_single _ _ Hy) in En.
+      repeat split; auto.
+      + apply tr_check_fx_same; auto.
+      + rewrite Hx, Hy. constructor; [apply near_lt; exact En | constructor].
+    - destruct (near tol (cnst a 2) (cnst b 2) && near tol (cnst a 0) (cnst b 0) && near tol (cnst a 1) (cnst b 1))
+        eqn:En; [|discriminate].
+      apply andb_true_iff in En. destruct En as [En E1]. apply andb_true_iff in En. destruct En as [E2 E0].
+      pose proof (near_tol_pos _ _ _ E0) as Hpos.
+      destruct (length3 _ Haa) as [x0 [x1 [x2 Hx]]]. destruct (length3 _ Hab) as [y0 [y1 [y2 Hy]]].
+      unfold cnst in E0, E1, E2. rewrite Hx, Hy in E0, E1, E2. simpl in E0, E1, E2.
+      repeat split; auto.
+      + apply tr_check_fx_same; auto.
+      + rewrite Hx, Hy. repeat constructor; apply near_lt; assumption.
+  Qed.
+
+  Lemma candidate_fx_sym1 : class_ok a -> class_ok b -> candidate_fx tol a b = Ok true -> candidate_fx tol b a = Ok true.
+  Proof.
+    intros [Hca _] [Hcb _] H.
+    pose proof (candidate_fx_type_eq _ _ _ H) as Hty.
+    assert (Hcl : s_class b = s_class a) by (rewrite Hca, Hcb, Hty; reflexivity).
+    unfold candidate_fx in *.
+    destruct (periodic_now a) eqn:Epa; [discriminate|].
+    rewrite (same_kind_sym b a). destruct (same_kind a b); simpl in *; [|discriminate].
+    rewrite Hcl. rewrite (may_merge_sym b a).
+    destruct (s_class a) eqn:Ecl; try discriminate;
+      (destruct (may_merge a b) eqn:Emm; simpl in *; [|discriminate]);
+      destruct (may_merge_spec _ _ Emm) as [_ [Hp2 _]];
+      assert (Epb : periodic_now b = false) by (unfold periodic_now; rewrite Hp2; reflexivity); rewrite Epb.
+    - rewrite (near_sym tol (cnst b 0)).
+      destruct (near tol (cnst a 0) (cnst b 0)); [|discriminate]. apply tr_check_fx_sym; assumption.
+    - rewrite (near_sym tol (cnst b 0)).
+      destruct (near tol (cnst a 0) (cnst b 0)); [|discriminate]. apply tr_check_fx_sym; assumption.
+    - rewrite (near_sym tol (cnst b 2)), (near_sym tol (cnst b 0)), (near_sym tol (cnst b 1)).
+      destruct (near tol (cnst a 2) (cnst b 2) && near tol (cnst a 0) (cnst b 0) && near tol (cnst a 1) (cnst b 1));
+        [|discriminate].
+      apply tr_check_fx_sym; assumption.
+  Qed.
+End Pair.
+
+(* ========================================================================= cell.surfaces keeps covering the leaves *)
+Definition sa_step (nd : list (Z * Z)) (acc : list Z) (n : Z) : list Z :=
+  match lookup n nd with
+  | Some s => if memZ s acc then acc else (acc ++ [s])%list
+  | None => acc
+  end.
+
+Definition loop_step (acc : list Z) (kv : Z * Z) : list Z :=
+  let acc' := remove_first (fst kv) acc in if memZ (snd kv) acc' then acc' else (acc' ++ [snd kv])%list.
+
+Lemma surfs_after_fx_unfold : forall nd g cs,
+  surfs_after_fx nd g cs = fold_left loop_step nd (fold_left (sa_step nd) (leaf_surfs g) cs).
+Proof. reflexivity. Qed.
+
+Lemma sa_step_incl : forall nd acc n x, In x acc -> In x (sa_step nd acc n).
+Proof.
+  intros nd acc n x H. unfold sa_step. destruct (lookup n nd); [|exact H].
+  destruct (memZ z acc); [exact H | apply in_or_app; left; exact H].
+Qed.
+
+Lemma sa_fold_incl : forall nd ls acc x, In x acc -> In x (fold_left (sa_step nd) ls acc).
+Proof.
+  intros nd. induction ls as [|n ls IH]; intros acc x H; simpl; [exact H|].
+  apply IH. apply sa_step_incl. exact H.
+Qed.
+
+Lemma sa_fold_origin : forall nd ls acc x,
+  In x (fold_left (sa_step nd) ls acc) -> In x acc \/ exists n, lookup n nd = Some x.
+Proof.
+  intros nd. induction ls as [|n ls IH]; intros acc x H; simpl in H; [left; exact H|].
+  apply IH in H. destruct H as [H|H]; [|right; exact H].
+  unfold sa_step in H. destruct (lookup n nd) as [s|] eqn:El; [|left; exact H].
+  destruct (memZ s acc); [left; exact H|].
+  apply in_app_or in H. destruct H as [H|[<-|[]]]; [left; exact H | right; exists n; exact El].
+Qed.
+
+Lemma remove_first_other : forall k l x, x <> k -> In x l -> In x (remove_first k l).
+Proof.
+  intros k. induction l as [|a l IH]; intros x Hne Hin; [destruct Hin|].
+  simpl. destruct (Z.eqb a k) eqn:E.
+  - apply Z.eqb_eq in E. subst a. destruct Hin as [->|Hin]; [congruence | exact Hin].
+  - destruct Hin as [->|Hin]; [left; reflexivity | right; apply IH; assumption].
+Qed.
+
+Lemma remove_first_incl : forall k l x, In x (remove_first k l) -> In x l.
+Proof.
+  intros k. induction l as [|a l IH]; intros x H; simpl in *; [exact H|].
+  destruct (Z.eqb a k); [right; exact H|]. destruct H as [->|H]; [left; reflexivity | right; apply IH; exact H].
+Qed.
+
+Lemma loop_step_keeps : forall acc (kv : Z * Z) x, fst kv <> x -> In x acc -> In x (loop_step acc kv).
+Proof.
+  intros acc kv x Hne Hin. unfold loop_step.
+  assert (H : In x (remove_first (fst kv) acc)) by (apply remove_first_other; [congruence | exact Hin]).
+  destruct (memZ (snd kv) (remove_first (fst kv) acc)); [exact H | apply in_or_app; left; exact H].
+Qed.
+
+Lemma loop_step_adds : forall acc (kv : Z * Z), In (snd kv) (loop_step acc kv).
+Proof.
+  intros acc kv. unfold loop_step. destruct (memZ (snd kv) (remove_first (fst kv) acc)) eqn:E.
+  - apply memZ_In. exact E.
+  - apply in_or_app. right. left. reflexivity.
+Qed.
+
+Lemma loop_keeps : forall (nd : list (Z * Z)) acc x,
+  (forall kv : Z * Z, In kv nd -> fst kv <> x) -> In x acc -> In x (fold_left loop_step nd acc).
+Proof.
+  induction nd as [|kv nd IH]; intros acc x Hk Hin; simpl; [exact Hin|].
+  apply IH; [intros kv' H'; apply Hk; right; exact H' | apply loop_step_keeps; [apply Hk; left; reflexivity | exact Hin]].
+Qed.
+
+Lemma loop_adds : forall (nd : list (Z * Z)) acc d s,
+  In (d, s) nd -> (forall kv : Z * Z, In kv nd -> fst kv <> s) -> In s (fold_left loop_step nd acc).
+Proof.
+  induction nd as [|kv nd IH]; intros acc d s Hin Hk; [destruct Hin|]. simpl.
+  destruct Hin as [->|Hin].
+  - apply loop_keeps; [intros kv' H'; apply Hk; right; exact H' | exact (loop_step_adds acc (d, s))].
+  - eapply IH; [exact Hin | intros kv' H'; apply Hk; right; exact H'].
+Qed.
+
+Lemma loop_origin : forall (nd : list (Z * Z)) acc x,
+  In x (fold_left loop_step nd acc) -> In x acc \/ exists d, In (d, x) nd.
+Proof.
+  induction nd as [|kv nd IH]; intros acc x H; simpl in H; [left; exact H|].
+  apply IH in H. destruct H as [H|[d H]]; [|right; exists d; right; exact H].
+  unfold loop_step in H. destruct (memZ (snd kv) (remove_first (fst kv) acc)).
+  - left. eapply remove_first_incl. exact H.
+  - apply in_app_or in H. destruct H as [H|[<-|[]]]; [left; eapply remove_first_incl; exact H|].
+    right. exists (fst kv). left. destruct kv; reflexivity.
+Qed.
+
+Lemma lookup_None_keys : forall x d, lookup x d = None -> forall kv : Z * Z, In kv d -> fst kv <> x.
+Proof.
+  intros x. induction d as [|[k v] d IH]; intros H kv Hin; [destruct Hin|].
+  simpl in H. destruct (Z.eqb k x) eqn:E; [discriminate|].
+  destruct Hin as [<-|Hin]; [simpl; apply Z.eqb_neq; exact E | apply IH; assumption].
+Qed.
+
+Lemma lookup_Some_In : forall x v d, lookup x d = Some v -> In (x, v) d.
+Proof.
+  intros x v. induction d as [|[k w] d IH]; intro H; simpl in H; [discriminate|].
+  destruct (Z.eqb k x) eqn:E; [apply Z.eqb_eq in E; inversion H; subst; left; reflexivity | right; apply IH; exact H].
+Qed.
+
+Lemma In_lookup_some : forall (d : list (Z * Z)) x v, In (x, v) d -> lookup x d <> None.
+Proof.
+  induction d as [|[k w] d IH]; intros x v H; [destruct H|]. simpl.
+  destruct (Z.eqb k x) eqn:E; [discriminate|].
+  destruct H as [H|H]; [inversion H; subst; rewrite Z.eqb_refl in E; discriminate | eapply IH; exact H].
+Qed.
+
+Lemma cell_dedup_fx_num : forall m c, c_num (cell_dedup_fx m c) = c_num c.
+Proof. intros m c. unfold cell_dedup_fx. destruct (restrict (c_surfs c) m); reflexivity. Qed.
+
+Lemma cell_dedup_fx_geom : forall m c, c_geom (cell_dedup_fx m c) = c_geom (cell_dedup m c).
+Proof. intros m c. unfold cell_dedup_fx, cell_dedup. destruct (restrict (c_surfs c) m); reflexivity. Qed.
+
+Lemma cell_dedup_fx_links : forall m c,
+  (forall d s, lookup d m = Some s -> lookup s m = None) ->
+  incl (leaf_surfs (c_geom c)) (c_surfs c) ->
+  incl (leaf_surfs (c_geom (cell_dedup_fx m c))) (c_surfs (cell_dedup_fx m c)).
+Proof.
+  intros m c Hsurv Hl. unfold cell_dedup_fx.
+  destruct (restrict (c_surfs c) m) as [|kv0 nd0] eqn:Hr; [exact Hl|].
+  set (nd := kv0 :: nd0) in *. simpl c_geom. simpl c_surfs.
+  rewrite hs_dedup_spec, leaf_surfs_map_leaves, surfs_after_fx_unfold.
+  intros x Hx. apply in_map_iff in Hx. destruct Hx as [n [Hx Hn]].
+  assert (Hnc : In n (c_surfs c)) by (apply Hl; exact Hn).
+  assert (Hnd : forall k, lookup k nd = if memZ k (c_surfs c) then lookup k m else None).
+  { intro k. rewrite <- Hr. apply lookup_restrict. }
+  unfold ren in Hx. destruct (lookup n nd) as [s|] eqn:El.
+  - subst x. apply (loop_adds nd _ n s).
+    + apply lookup_Some_In. exact El.
+    + apply lookup_None_keys. rewrite Hnd.
+      assert (Hm : lookup n m = Some s).
+      { rewrite Hnd in El. apply memZ_In in Hnc. rewrite Hnc in El. exact El. }
+      rewrite (Hsurv _ _ Hm). destruct (memZ s (c_surfs c)); reflexivity.
+  - subst x. apply loop_keeps.
+    + apply lookup_None_keys. exact El.
+    + apply sa_fold_incl. exact Hnc.
+Qed.
+
+(* ========================================================================= the repaired call *)
+Definition disp_uniform (all : list surface) : Prop :=
+  forall a b t t', In a all -> In b all -> s_tr a = Some t -> s_tr b = Some t' ->
+                   List.length (t_disp t) = List.length (t_disp t').
+
+Lemma disp3_uniform : forall all, disp3 all -> disp_uniform all.
+Proof. intros all H a b t t' Ha Hb H1 H2. rewrite (H a t Ha H1), (H b t' Hb H2). reflexivity. Qed.
+
+Lemma scan_fx_inv_basic : forall tol all del m,
+  scan_fx tol all = Ok (del, m) -> inv_basic_g (candidate_fx tol) all del m.
+Proof.
+  intros tol all del m H. unfold scan_fx in H.
+  eapply scan_loop_g_inv_basic; [apply incl_refl | | exact H].
+  split; [intro n; simpl; split; [tauto | intro H0; apply H0; reflexivity] | intros d s H0; discriminate].
+Qed.
+
+Lemma cand_fx_sym : forall tol all,
+  Forall class_ok all -> disp_uniform all ->
+  forall a b, In a all -> In b all -> candidate_fx tol a b = Ok true -> candidate_fx tol b a = Ok true.
+Proof.
+  intros tol all Hok Hd a b Ha Hb H. rewrite Forall_forall in Hok.
+  apply candidate_fx_sym1; auto. intros t t' H1 H2. exact (Hd a b t t' Ha Hb H1 H2).
+Qed.
+
+Lemma scan_fx_inv_chain : forall tol all del m,
+  NoDup (map s_num all) -> Forall class_ok all -> disp_uniform all ->
+  scan_fx tol all = Ok (del, m) -> inv_chain_g (candidate_fx tol) all del m.
+Proof.
+  intros tol all del m Hnd Hok Hd H. unfold scan_fx in H.
+  eapply scan_loop_g_inv_chain; [exact (candidate_fx_num_neq tol) | exact Hnd | apply cand_fx_sym; assumption
+                                | apply incl_refl | | exact H].
+  split; [intros d s H0; discriminate | intros d ss _ H0; discriminate].
+Qed.
+
+Lemma scan_loop_g_total : forall cand all todo del m,
+  (forall s x, In s all -> In x all -> exists r, cand s x = Ok r) ->
+  incl todo all -> exists r, scan_loop_g cand all todo del m = Ok r.
+Proof.
+  intros cand all. induction todo as [|s r IH]; intros del m Ht Hincl; simpl; [eexists; reflexivity|].
+  assert (Hr : incl r all) by (intros x Hx; apply Hincl; right; exact Hx).
+  destruct (memZ (s_num s) del); [apply IH; assumption|].
+  assert (Hf : exists ms, filter_res (cand s) all = Ok ms).
+  { apply filter_res_total. intros x Hx. apply Ht; [apply Hincl; left; reflexivity | exact Hx]. }
+  destruct Hf as [ms Hms]. rewrite Hms.
+  destruct (record_matches (map s_num ms) (s_num s) del m) as [d1 m1]. apply IH; assumption.
+Qed.
+
+Lemma scan_fx_total : forall tol all, disp_uniform all -> exists r, scan_fx tol all = Ok r.
+Proof.
+  intros tol all Hd. unfold scan_fx. apply scan_loop_g_total; [|apply incl_refl].
+  intros s x Hs Hx. apply candidate_fx_total. intros t t' H1 H2. exact (Hd s x t t' Hs Hx H1 H2).
+Qed.
+
+Lemma dedup_fx_inv : forall tol P P',
+  dedup_fx tol P = Ok P' ->
+  exists del m, scan_fx tol (p_surfs P) = Ok (del, m) /\
+    P' = mkProb (remove_all del (map (repoint_periodic m) (p_surfs P))) (map (cell_dedup_fx m) (p_cells P)) (p_trs P).
+Proof.
+  intros tol P P' H. unfold dedup_fx in H.
+  destruct (scan_fx tol (p_surfs P)) as [[del m]|] eqn:Hs; [|discriminate].
+  inversion H; subst. exists del, m. auto.
+Qed.
+
+Lemma repoint_num : forall m s, s_num (repoint_periodic m s) = s_num s.
+Proof.
+  intros m s. unfold repoint_periodic.
+  destruct (if Z.eqb (s_perptr s) 0 then None else lookup (s_perptr s) m); reflexivity.
+Qed.
+
+Lemma repoint_nums : forall m l, map s_num (map (repoint_periodic m) l) = map s_num l.
+Proof. intros m l. rewrite map_map. apply map_ext. intro s. apply repoint_num. Qed.
+
+Lemma repoint_perptr : forall m s, s_perptr (repoint_periodic m s) = if Z.eqb (s_perptr s) 0 then 0 else ren m (s_perptr s).
+Proof.
+  intros m s. unfold repoint_periodic, ren. destruct (Z.eqb (s_perptr s) 0) eqn:E.
+  - apply Z.eqb_eq in E. exact E.
+  - destruct (lookup (s_perptr s) m); reflexivity.
+Qed.
+
+Lemma repoint_id : forall m s, s_perptr s = 0 \/ lookup (s_perptr s) m = None -> repoint_periodic m s = s.
+Proof.
+  intros m s [H|H]; unfold repoint_periodic.
+  - rewrite H. reflexivity.
+  - rewrite H. destruct (Z.eqb (s_perptr s) 0); reflexivity.
+Qed.
+
+(* --- only true duplicates are merged: no side condition on boundary conditions, periodicity or rotations *)
+Theorem fx_only_true_duplicates : forall tol P del m,
+  wf P -> Forall class_ok (p_surfs P) -> disp_uniform (p_surfs P) ->
+  scan_fx tol (p_surfs P) = Ok (del, m) ->
+  forall d s sd ss, lookup d m = Some s ->
+    In sd (p_surfs P) -> In ss (p_surfs P) -> s_num sd = d -> s_num ss = s -> true_dup tol ss sd.
+Proof.
+  intros tol P del m Hwf Hok Hdu Hs d s sd ss Hl Hsd Hss Hd Hn.
+  destruct (scan_fx_inv_basic _ _ _ _ Hs) as [_ Hj].
+  destruct (Hj d s Hl) as [sd' [ss' [Hsd' [Hss' [Hd' [Hn' Hc]]]]]].
+  assert (sd' = sd) by (apply (same_num_same_surface (p_surfs P) Hwf); auto; congruence).
+  assert (ss' = ss) by (apply (same_num_same_surface (p_surfs P) Hwf); auto; congruence).
+  subst sd' ss'. rewrite Forall_forall in Hok.
+  apply candidate_fx_true_dup; auto.
+  intros t t' H1 H2. exact (Hdu ss sd t t' Hss Hsd H1 H2).
+Qed.
+
+Theorem fx_cells_structure : forall tol P P' del m,
+  scan_fx tol (p_surfs P) = Ok (del, m) -> dedup_fx tol P = Ok P' ->
+  Forall2 (fun c c' =>
+             c_num c' = c_num c /\
+             exists f, (forall n, lookup n m = None -> f n = n) /\
+                       (forall n, f n = n \/ lookup n m = Some (f n)) /\
+                       (forall n, In n (c_surfs c) -> f n = ren m n) /\
+                       c_geom c' = map_leaves f (c_geom c))
+          (p_cells P) (p_cells P').
+Proof.
+  intros tol P P' del m Hs Hd. apply dedup_fx_inv in Hd. destruct Hd as [del' [m' [Hs' ->]]].
+  rewrite Hs in Hs'. inversion Hs'; subst del' m'. simpl.
+  apply Forall2_map_both. intros c _. split.
+  - apply cell_dedup_fx_num.
+  - exists (cell_ren m c). repeat split.
+    + apply cell_ren_not_key.
+    + apply cell_ren_cases.
+    + apply cell_ren_linked.
+    + rewrite cell_dedup_fx_geom. apply cell_dedup_geom.
+Qed.
+
+Theorem fx_region : forall tol P P' del m,
+  scan_fx tol (p_surfs P) = Ok (del, m) -> dedup_fx tol P = Ok P' ->
+  Forall2 (fun c c' =>
+             c_num c' = c_num c /\ shape (c_geom c') = shape (c_geom c) /\
+             forall es ec, identifies m es -> region es ec (c_geom c') = region es ec (c_geom c))
+          (p_cells P) (p_cells P').
+Proof.
+  intros tol P P' del m Hs Hd. pose proof (fx_cells_structure _ _ _ _ _ Hs Hd) as H.
+  eapply Forall2_imp; [|exact H]. intros c c' [Hn [f [_ [Hc [_ Hg]]]]]. split; [exact Hn|]. split.
+  - rewrite Hg. apply shape_map_leaves.
+  - intros es ec Hid. rewrite Hg, region_map_leaves. apply region_ext. intros n _.
+    destruct (Hc n) as [E|E]; [rewrite E; reflexivity | symmetry; apply Hid; exact E].
+Qed.
+
+(* survivors are never keys of the map *)
+Lemma fx_survivors_not_keys : forall tol P del m,
+  wf P -> Forall class_ok (p_surfs P) -> disp_uniform (p_surfs P) ->
+  scan_fx tol (p_surfs P) = Ok (del, m) ->
+  forall d s, lookup d m = Some s -> lookup s m = None.
+Proof.
+  intros tol P del m Hwf Hok Hdu Hs d s Hl.
+  destruct (scan_fx_inv_basic _ _ _ _ Hs) as [Hk _].
+  destruct (scan_fx_inv_chain _ _ _ _ Hwf Hok Hdu Hs) as [Hv _].
+  destruct (lookup s m) eqn:E; [|reflexivity].
+  exfalso. apply (Hv _ _ Hl). apply Hk. congruence.
+Qed.
+
+(* --- the surfaces: removed ones are gone, the others are untouched except a periodic pointer that followed
+       its partner to the survivor *)
+Theorem fx_surfaces : forall tol P P' del m,
+  wf P -> scan_fx tol (p_surfs P) = Ok (del, m) -> dedup_fx tol P = Ok P' ->
+  p_surfs P' = filter (fun s => negb (memZ (s_num s) del)) (map (repoint_periodic m) (p_surfs P)) /\
+  (forall s, s_perptr s = 0 \/ lookup (s_perptr s) m = None -> repoint_periodic m s = s) /\
+  map s_num (p_surfs P') = filter (fun n => negb (memZ n del)) (map s_num (p_surfs P)).
+Proof.
+  intros tol P P' del m Hwf Hs Hd. apply dedup_fx_inv in Hd. destruct Hd as [del' [m' [Hs' ->]]].
+  rewrite Hs in Hs'. inversion Hs'; subst del' m'. simpl.
+  assert (Hnd : NoDup (map s_num (map (repoint_periodic m) (p_surfs P)))) by (rewrite repoint_nums; exact Hwf).
+  rewrite remove_all_filter by exact Hnd. split; [reflexivity|]. split; [apply repoint_id|].
+  rewrite <- (repoint_nums m (p_surfs P)). generalize (map (repoint_periodic m) (p_surfs P)).
+  induction l as [|a l IH]; simpl; [reflexivity|].
+  destruct (memZ (s_num a) del); simpl; rewrite IH; reflexivity.
+Qed.
+
+(* --- no leaf refers to a removed surface, and cell.surfaces keeps covering the leaves: the call can be repeated *)
+Theorem fx_no_dangling_leaf : forall tol P P' del m,
+  wf P -> links P -> Forall class_ok (p_surfs P) -> disp_uniform (p_surfs P) ->
+  scan_fx tol (p_surfs P) = Ok (del, m) -> dedup_fx tol P = Ok P' ->
+  links P' /\
+  forall c', In c' (p_cells P') -> forall n, In n (leaf_surfs (c_geom c')) -> ~ In n del.
+Proof.
+  intros tol P P' del m Hwf Hl Hok Hdu Hs Hd.
+  pose proof (fx_survivors_not_keys _ _ _ _ Hwf Hok Hdu Hs) as Hsurv.
+  destruct (scan_fx_inv_basic _ _ _ _ Hs) as [Hk _].
+  apply dedup_fx_inv in Hd. destruct Hd as [del' [m' [Hs' ->]]].
+  rewrite Hs in Hs'. inversion Hs'; subst del' m'. simpl. split.
+  - intros c' Hc'. simpl in Hc'. apply in_map_iff in Hc'. destruct Hc' as [c [<- Hc]].
+    apply cell_dedup_fx_links; [exact Hsurv | apply Hl; exact Hc].
+  - intros c' Hc' n Hn. apply in_map_iff in Hc'. destruct Hc' as [c [<- Hc]].
+    rewrite cell_dedup_fx_geom, cell_dedup_geom, leaf_surfs_map_leaves in Hn. apply in_map_iff in Hn. destruct Hn as [n0 [E Hn0]].
+    assert (Hin : In n0 (c_surfs c)) by (apply (Hl c Hc); exact Hn0).
+    rewrite (cell_ren_linked m c n0 Hin) in E. unfold ren in E. destruct (lookup n0 m) eqn:El.
+    + subst z. intro Hd'. apply Hk in Hd'. apply Hd'. eapply Hsurv. exact El.
+    + subst n0. intro Hd'. apply Hk in Hd'. apply Hd'. exact El.
+Qed.
+
+(* --- no periodic pointer to a removed surface *)
+Theorem fx_no_dangling_periodic : forall tol P P' del m,
+  wf P -> Forall class_ok (p_surfs P) -> disp_uniform (p_surfs P) ->
+  (forall s, In s (p_surfs P) -> s_perptr s = 0 \/ In (s_perptr s) (map s_num (p_surfs P))) ->
+  scan_fx tol (p_surfs P) = Ok (del, m) -> dedup_fx tol P = Ok P' ->
+  forall s', In s' (p_surfs P') -> s_perptr s' = 0 \/ In (s_perptr s') (map s_num (p_surfs P')).
+Proof.
+  intros tol P P' del m Hwf Hok Hdu Hper Hs Hd s' Hin.
+  pose proof (fx_survivors_not_keys _ _ _ _ Hwf Hok Hdu Hs) as Hsurv.
+  destruct (scan_fx_inv_basic _ _ _ _ Hs) as [Hk Hj].
+  destruct (fx_surfaces _ _ _ _ _ Hwf Hs Hd) as [Hsf [_ Hnums]].
+  rewrite Hnums. rewrite Hsf in Hin. apply filter_In in Hin. destruct Hin as [Hin _].
+  apply in_map_iff in Hin. destruct Hin as [s [<- Hs0]].
+  rewrite repoint_perptr. destruct (Z.eqb (s_perptr s) 0) eqn:E0; [left; reflexivity|]. right.
+  destruct (Hper s Hs0) as [H0|Hmem]; [rewrite H0 in E0; discriminate|].
+  apply filter_In. unfold ren. destruct (lookup (s_perptr s) m) as [v|] eqn:El.
+  - destruct (Hj _ _ El) as [sd [ss [_ [Hss [_ [Hv _]]]]]]. split.
+    + rewrite <- Hv. apply in_map. exact Hss.
+    + apply negb_true_iff. apply memZ_false. intro Hd'. apply Hk in Hd'. apply Hd'. eapply Hsurv. exact El.
+  - split; [exact Hmem|]. apply negb_true_iff. apply memZ_false. intro Hd'. apply Hk in Hd'. apply Hd'. exact El.
+Qed.
+
+(* --- the call returns *)
+Theorem fx_completes : forall tol P, disp_uniform (p_surfs P) -> exists P', dedup_fx tol P = Ok P'.
+Proof.
+  intros tol P Hd. unfold dedup_fx. destruct (scan_fx_total tol _ Hd) as [[del m] Hs]. rewrite Hs.
+  eexists; reflexivity.
+Qed.
+
+Lemma fx_witnesses :
+  scan_fx tol4 (p_surfs w_bc) = Ok ([], []) /\ scan_fx tol4 (p_surfs w_per) = Ok ([], []) /\
+  scan_fx tol4 (p_surfs w_rot) = Ok ([], []) /\ scan_fx tol4 (p_surfs w_dangle) = Ok ([2], [(2, 1)]) /\
+  dedup_fx tol4 w_revert = Ok w_revert /\ scan_fx tol4 (p_surfs w_index) = Ok ([], []) /\
+  scan_fx tol4 (p_surfs ex_prob) = Ok (ex_del, ex_map) /\
+  disp_uniform (p_surfs ex_prob) /\ disp_uniform (p_surfs w_index).
+Proof.
+  repeat (split; [vm_compute; reflexivity|]). split.
+  - intros a b t t' Ha Hb H1 H2. in_cases Ha; in_cases Hb; simpl in H1, H2; try discriminate;
+      inversion H1; inversion H2; subst; reflexivity.
+  - intros a b t t' Ha Hb H1 H2. in_cases Ha; in_cases Hb; simpl in H1, H2; try discriminate;
+      inversion H1; inversion H2; subst; reflexivity.
+Qed.
+
+(* ========================================================================= data-block cell modifier cards *)
+Theorem cellmod_always_fails : forall tol P r,
+  scan tol (p_surfs P) = Ok r -> dedup_call true tol P = Err MalformedInputError.
+Proof. intros tol P r H. unfold dedup_call. rewrite H. reflexivity. Qed.
+
+Theorem no_cellmod_same : forall tol P, dedup_call false tol P = dedup tol P.
+Proof.
+  intros tol P. unfold dedup_call, dedup. destruct (scan tol (p_surfs P)) as [[del m]|]; reflexivity.
+Qed.
